@@ -86,6 +86,7 @@ type Exec struct {
 	curLabel   string
 	dryDepth   int
 	useStrings bool
+	noEnv      int
 	splitVar   string
 	splitBits  int
 }
@@ -761,6 +762,12 @@ func (x *Exec) forStmt(s *ast.ForStmt, st *State, label string) {
 	}
 	spec := x.loopSpec(s)
 	env := x.loopEnv(st)
+	if spec != nil {
+		for _, gs := range spec.Inits {
+			v := x.specValue(gs.Expr, env.at(st))
+			x.setHeap(st, "gv:"+gs.Var, x.coerceGhost(v.V, "gv:"+gs.Var, st))
+		}
+	}
 	x.loopInvs(spec, st, env, "inv-init", s.Pos())
 
 	body := func(sb *State, lc *loopCtx) []*State {
@@ -813,6 +820,13 @@ func (x *Exec) forStmt(s *ast.ForStmt, st *State, label string) {
 		if variant0.S != "" {
 			v1 := x.specTerm(spec.Decreases.Expr, env.at(back))
 			x.assert(back, "variant", spec.Decreases.Label, tAnd(x.ltInt(v1, variant0), x.geZero(v1)), spec.Decreases.Tags, s.Pos())
+		}
+	}
+	if spec != nil {
+		for _, ex := range spec.Exits {
+			for _, g := range x.specConjuncts(ex.Expr, env.at(se)) {
+				x.assert(se, "loop-exit", fmt.Sprintf("loop%d: %s", spec.Ord, g.label(ex.Label)), g.t, ex.Tags, s.Pos())
+			}
 		}
 	}
 	st.set(x.merge(append(lc.breaks, se)...))
@@ -944,7 +958,7 @@ func (x *Exec) rangeIndexed(s *ast.RangeStmt, st *State, label string, spec *Loo
 func (x *Exec) rangeMap(s *ast.RangeStmt, st *State, label string, spec *LoopSpec, mt *types.Map, bind func(ast.Expr, Value, *State)) {
 	m := x.expr(s.X, st).(Term)
 	ks := x.scalarSort(mt.Key())
-	visKey := fmt.Sprintf("gv:$visited%d", len(x.loops))
+	visKey := fmt.Sprintf("gv:$visited%d.%s", len(x.loops), sanitize(ks.String()))
 	vs := sortArr(ks, sortBool)
 	x.registerHeap(visKey, func() Value { return x.vc.freshBase("visited", vs) })
 	x.setHeap(st, visKey, zeroOf(vs))
